@@ -307,7 +307,8 @@ def readme_facts(text: str) -> Dict[str, Any]:
             "raw_title": raw_title, "title": None if raw_title is None else html_mod.unescape(raw_title)}
 
 
-def collect_facts(site: Dict[str, Any], extra_factors: Sequence[Fraction] = ()) -> Dict[str, Any]:
+def collect_facts(site: Dict[str, Any], extra_factors: Sequence[Fraction] = (),
+                  extra_servings: Sequence[int] = ()) -> Dict[str, Any]:
     """Facts for every text file of the scratch tree (keyed by content) and mime types by file name."""
     M = site["M"]
     rec: Dict[str, Any] = {}
@@ -324,7 +325,7 @@ def collect_facts(site: Dict[str, Any], extra_factors: Sequence[Fraction] = ()) 
                 probe = recipe_facts(t, [])
                 factors = list(extra_factors)
                 if not probe["err"] and probe["servings"]:
-                    factors += [Fraction(k, probe["servings"]) for k in range(1, M + 1)]
+                    factors += [Fraction(k, probe["servings"]) for k in list(range(1, M + 1)) + list(extra_servings)]
                 rec[t] = recipe_facts(t, factors) if factors else probe
     mimes = {nm: mimetypes.guess_type(nm)[0] for nm in sorted(names)}
     return {"recipes": rec, "readmes": rdm, "mimes": mimes}
@@ -925,7 +926,8 @@ def oracle_alone(site: Dict[str, Any], base: str, a: Dict[str, Any], o: Dict[str
 
 
 def make_alone_case(site: Dict[str, Any], a: Dict[str, Any], seed: int) -> Case:
-    facts = collect_facts(site, alone_facts_factor(a["scale"], a["servings"]))
+    facts = collect_facts(site, alone_facts_factor(a["scale"], a["servings"]),
+                          [a["servings"]] if a["servings"] is not None else [])
     base = os.path.realpath(tempfile.mkdtemp(prefix="rgv_site_"))
     try:
         materialise(site["base"], base, base)
@@ -1006,16 +1008,20 @@ def make_history_case(site: Dict[str, Any], steps: List[Dict[str, Any]], seed: i
     cur = copy.deepcopy(site)
     all_texts_site = copy.deepcopy(site)          # a site that contains every text ever written (for the facts)
     extra: List[Fraction] = []
+    extra_sv: List[int] = []
     maxM = site["M"]
     for st in steps:
         if st["op"] == "write":
             all_texts_site["base"]["ch"].append({"k": "f", "name": "w%d" % len(all_texts_site["base"]["ch"]), "text": st["text"]})
         elif st["op"] == "gen":
             maxM = max(maxM, st["M"])
-        elif st["op"] == "alone" and st["scale"] is not None:
-            extra.append(Fraction(st["scale"]))
+        elif st["op"] == "alone":
+            if st["scale"] is not None:
+                extra.append(Fraction(st["scale"]))
+            if st["servings"] is not None:
+                extra_sv.append(st["servings"])
     all_texts_site["M"] = maxM
-    facts = collect_facts(all_texts_site, extra)
+    facts = collect_facts(all_texts_site, extra, extra_sv)
     base = os.path.realpath(tempfile.mkdtemp(prefix="rgv_site_"))
     obs_terms: List[str] = []
     step_terms: List[str] = []
